@@ -556,6 +556,7 @@ func c20Run(s *core.Sub, c c20Cfg) {
 }
 
 func runC20(r *core.Run) {
+	runC20Shared(r)
 	pool := core.Pick(r, []int{50, 250, 550, 1050}, []int{50, 250, 550, 950, 1050})
 	type group struct {
 		name    string
